@@ -215,8 +215,18 @@ void vk_advance(int ms)
 
 static struct vk_event dummy_event;
 
+int vk_calls_in_api;
+static void hang(const char *where) __attribute__((noreturn));
+
 static struct vk_event *ev_new(int call, long a0, long a1, long a2)
 {
+  /* a library call that keeps issuing system calls without ever blocking or returning is a livelock (busy wait) */
+  if (vk_side == 0 && vk_api_seq && ++vk_calls_in_api > 20000) {
+    vk_calls_in_api = 0;
+    char w[40];
+    snprintf(w, sizeof w, "livelock:%s", vk_call_names[call]);
+    hang(w);
+  }
   if (S->nevents >= VK_MAX_EVENTS) return &dummy_event;
   struct vk_event *e = &S->ev[S->nevents++];
   memset(e, 0, sizeof *e);
@@ -275,6 +285,7 @@ int vk_api_begin(const char *fmt, ...)
   vsnprintf(b, sizeof b, fmt, ap);
   va_end(ap);
   vk_api_seq = ++api_counter;
+  vk_calls_in_api = 0;
   vk_log("api #%d %s  t=%lld", vk_api_seq, b, (long long) S->clock_ms);
   return vk_api_seq;
 }
@@ -737,8 +748,10 @@ int vk_child_step(struct vk_child *c)
   struct vc_rep r;
   if (!xrecv(c->ctl, &r, sizeof r)) infra("child %d vanished during step %c", c->idx, st->op);
   int happened = 1;
+  if (st->op == 'E' && (r.st == ST_PROGRESS || r.st == ST_EOF || r.st == ST_BLOCKED)) c->echoed = (uint32_t) r.n;
   switch (r.st) {
     case ST_DONE:
+      if (st->op == 'C' && st->a >= 0 && st->a < 3) c->closed_fd[st->a] = 1;
       if (st->op == 'W') note_write(c, st->a, (uint32_t) (st->b - st->done));
       if (st->op == 'S') c->disp[st->a] = (char) st->b;
       c->pos++;
